@@ -212,6 +212,9 @@ type C08E2E struct {
 	Stats     bool     `json:"stats,omitempty"`     // do-nothing stats handlers on both sides
 	Intercept bool     `json:"intercept,omitempty"` // pass-through interceptors on both sides
 	MD        []kit.KV `json:"md,omitempty"`        // the caller's outgoing metadata (api modes)
+	// Before (header mode): a second timeout entry with this malformed value precedes the real one in the header list
+	// ("malformed values are ignored rather than misread": the handler's deadline is what the well-formed entry says)
+	Before *string `json:"before,omitempty"`
 }
 
 func genC08E2E(t *rapid.T) C08E2E {
@@ -246,6 +249,10 @@ func genC08E2E(t *rapid.T) C08E2E {
 		c.HdrVal = genC08Str(t).S
 		if !isValidUTF8NoNul(c.HdrVal) {
 			c.HdrVal = "7S"
+		}
+		if rapid.IntRange(0, 3).Draw(t, "before") == 0 {
+			b := rapid.SampledFrom([]string{"", "abc", "12", "-5S", "1x", "S", "1.5S", " 3S"}).Draw(t, "before_val")
+			c.Before = &b
 		}
 	}
 	return c
@@ -288,6 +295,9 @@ func execC08E2E(t *testing.T, c C08E2E) (v Verdict) {
 		}
 		if c.Mode == "header" {
 			env := kit.EnvSpec{HdrMD: []kit.RawKV{{K: c.HdrKey, V: c.HdrVal}}}
+			if c.Before != nil {
+				env.HdrMD = []kit.RawKV{{K: "grpc-timeout", V: *c.Before}, {K: c.HdrKey, V: c.HdrVal}}
+			}
 			if c.Kind == kit.KindUnary {
 				env.Body = &kit.Payload{Class: "lit", Lit: []byte("x")}
 				env.Wrap = true
@@ -405,7 +415,7 @@ func execC08E2E(t *testing.T, c C08E2E) (v Verdict) {
 			}
 		}
 	}
-	v.Info = kit.CaseInfo{Labels: []string{"e2e." + label, "kind=" + kit.KindNames[c.Kind], fmt.Sprintf("e2e.intercept=%v", c.Intercept), fmt.Sprintf("e2e.with_metadata=%v", len(c.MD) > 0)}, NonTrivial: nt, Key: fmt.Sprintf("%+v", c), Sample: c}
+	v.Info = kit.CaseInfo{Labels: []string{"e2e." + label, "kind=" + kit.KindNames[c.Kind], fmt.Sprintf("e2e.intercept=%v", c.Intercept), fmt.Sprintf("e2e.with_metadata=%v", len(c.MD) > 0), fmt.Sprintf("e2e.malformed_entry_first=%v", c.Before != nil)}, NonTrivial: nt, Key: fmt.Sprintf("%+v", c), Sample: c}
 	return
 }
 
